@@ -189,6 +189,26 @@ class VFile:
         return "".join(self.lines).splitlines(True)
 
 
+def _deco_leaf(d):
+    if isinstance(d, ast.Call):
+        return _deco_leaf(d.func)
+    if isinstance(d, ast.Attribute):
+        return d.attr
+    if isinstance(d, ast.Name):
+        return d.id
+    return None
+
+
+class CtxGen:
+    """The object returned by calling a @contextmanager generator function: its body runs when a `with` statement enters it."""
+
+    def __init__(self, fn, args, kw):
+        self.fn, self.args, self.kw = fn, args, kw
+
+    def __repr__(self):
+        return "<contextmanager %s>" % fn_label(self.fn)
+
+
 class BytesVal:
     """ndarray.tobytes(): the raw contents as a value -- equal contents <=> equal value; np.frombuffer recovers them."""
 
@@ -293,6 +313,8 @@ class Interp:
         self.yield_stack = []
         self.class_attrs = {}    # (class name, attribute) -> value stored at run time on a class object
         self.globals_cache = {}  # (module, name) -> value of a module-level / class-level binding (evaluated once, shared)
+        self.deco_cache = {}     # id(FunctionDef) -> decorated value (decorators are applied once, at definition time)
+        self.class_inited = set()
         self.ph_of = {}          # poly key -> placeholder token
         self.ph_val = {}         # placeholder token -> Poly
         self.int_tokens = set()  # keys of Polys that stand for (arbitrarily large) integer ids
@@ -423,24 +445,67 @@ class Interp:
         return False
 
     # ------------------------------------------------------------------------------------ calls
-    def call_function(self, fn, args, kw=None, self_val=None, cls_for_super=None):
+    def make_closure(self, fn, env):
+        """A function object: default values are evaluated now (at definition time), free variables are looked up in `env` when
+        the function is called (late binding), exactly as in Python."""
+        a = fn.args
+        dvals = [self.ev(d, env) for d in a.defaults]
+        kdvals = [None if d is None else self.ev(d, env) for d in a.kw_defaults]
+        return Opaque("closure", fn, env, dvals, kdvals)
+
+    TRANSPARENT_DECORATORS = {"property", "staticmethod", "classmethod", "abstractmethod", "wraps", "setter", "getter", "deleter",
+                              "contextmanager", "lru_cache", "cache", "overload", "final", "override"}
+
+    def decorated_value(self, fn):
+        """None if all decorators of `fn` are understood natively; otherwise the value obtained by applying them (once)."""
+        key = id(fn)
+        if key in self.deco_cache:
+            return self.deco_cache[key]
+        todo = [d for d in fn.decorator_list if _deco_leaf(d) not in self.TRANSPARENT_DECORATORS]
+        if not todo:
+            self.deco_cache[key] = None
+            return None
+        import copy as _copy
+        raw = _copy.copy(fn)
+        raw.decorator_list = [d for d in fn.decorator_list if d not in todo]
+        raw._gs_module, raw._gs_class, raw._gs_raw = getattr(fn, "_gs_module", None), getattr(fn, "_gs_class", None), True
+        val = Opaque("closure", raw, {}, [self.ev_in_module(d, raw._gs_module) for d in raw.args.defaults],
+                     [None if d is None else self.ev_in_module(d, raw._gs_module) for d in raw.args.kw_defaults])
+        for d in reversed(todo):
+            dv = self.ev_in_module(d, raw._gs_module)
+            val = self.call_value(dv, [val], d)
+        self.deco_cache[key] = val
+        return val
+
+    def call_function(self, fn, args, kw=None, self_val=None, cls_for_super=None, base_env=None, defaults=None, kw_defaults=None):
         """Interpret FunctionDef `fn` with positional args (already including self/cls) and keywords."""
         kw = dict(kw or {})
+        if fn.decorator_list and not getattr(fn, "_gs_raw", False):
+            dec = self.decorated_value(fn)
+            if dec is not None:
+                return self.call_value(dec, list(args), fn, kw)
+        if fn.decorator_list and any(_deco_leaf(d) in ("lru_cache", "cache") for d in fn.decorator_list):
+            if any(isinstance(x, (Obj, Arr)) for x in list(args) + list(kw.values())):
+                raise self.unsupported("functools cache keyed on a mutable / identity-hashed object in %s" % fn_label(fn), fn)
+        if fn.decorator_list and any(_deco_leaf(d) == "contextmanager" for d in fn.decorator_list) and base_env is None:
+            return CtxGen(fn, list(args), kw)
         a = fn.args
         if a.posonlyargs:
             raise self.unsupported("positional-only signature of %s" % fn_label(fn), fn)
         params = [p.arg for p in a.args]
-        env = {}
+        env = dict(base_env) if base_env else {}
+        bound = set()
         if a.vararg:
             env[a.vararg.arg] = tuple(args[len(params):])
             args = list(args[:len(params)])
         if len(args) > len(params):
-            raise self.unsupported("too many arguments for %s" % fn_label(fn), fn)
+            raise PathRaise("TypeError(too many arguments for %s)" % fn_label(fn), self.where(fn))
         for p, v in zip(params, args):
             env[p] = v
+            bound.add(p)
         ndef = len(a.defaults)
         for i, p in enumerate(params):
-            if p in env:
+            if p in bound:
                 continue
             if p in kw:
                 env[p] = kw.pop(p)
@@ -448,12 +513,12 @@ class Interp:
             j = i - (len(params) - ndef)
             if j < 0:
                 raise self.unsupported("missing argument %s for %s" % (p, fn_label(fn)), fn)
-            env[p] = self.ev(a.defaults[j], {})
-        for p, d in zip(a.kwonlyargs, a.kw_defaults):
+            env[p] = defaults[j] if defaults is not None else self.ev(a.defaults[j], {})
+        for idx_, (p, d) in enumerate(zip(a.kwonlyargs, a.kw_defaults)):
             if p.arg in kw:
                 env[p.arg] = kw.pop(p.arg)
             elif d is not None:
-                env[p.arg] = self.ev(d, {})
+                env[p.arg] = kw_defaults[idx_] if kw_defaults is not None else self.ev(d, {})
             else:
                 raise self.unsupported("missing kw-only argument", fn)
         if a.kwarg:
@@ -489,6 +554,16 @@ class Interp:
         cls = recv.cls
         if isinstance(recv, Obj) and name in recv.stubs:
             return recv.stubs[name](*args)
+        if cls in self.pkg.classes:
+            self.ensure_class(cls)
+            if self.class_attrs:
+                for c_ in self.pkg.mro(cls):
+                    if (c_, name) in self.class_attrs:
+                        f_ = self.ev_Attribute(ast.Attribute(value=_Lit(recv), attr=name, ctx=ast.Load(), lineno=0), {})
+                        return self.call_value(f_, list(args), None, kw)
+                    ci_ = self.pkg.classes[c_]
+                    if name in ci_.methods or name in ci_.props or name in ci_.consts:
+                        break
         kind = self.pkg.lookup(cls, name)
         if kind is None:
             raise Unsupported("no attribute %s on %s" % (name, cls))
@@ -517,6 +592,7 @@ class Interp:
         pkg = self.pkg
         if clsname not in pkg.classes:
             raise Unsupported("construct unknown class %s" % clsname)
+        self.ensure_class(clsname)
         k = pkg.lookup(clsname, "__new__")
         if k is not None and k[0] == "method":
             fn = k[1][0]
@@ -662,21 +738,134 @@ class Interp:
                 else:
                     raise self.unsupported("del target", st)
         elif isinstance(st, ast.With):
-            for item in st.items:
-                v = self.ev(item.context_expr, env)
-                if item.optional_vars is not None:
-                    self.assign(item.optional_vars, v, env)
-            self.block(st.body, env)
+            self.exec_with(st, 0, env)
         elif isinstance(st, ast.FunctionDef):
             st._gs_module = self.module_of_current()
             st._gs_class = None
-            env[st.name] = Opaque("closure", st, env)
+            val = self.make_closure(st, env)
+            todo = [d for d in st.decorator_list if _deco_leaf(d) not in self.TRANSPARENT_DECORATORS]
+            if todo:
+                import copy as _copy
+                raw = _copy.copy(st)
+                raw.decorator_list = [d for d in st.decorator_list if d not in todo]
+                raw._gs_raw = True
+                val = Opaque("closure", raw, env, val.payload[2], val.payload[3])
+                for d in reversed(todo):
+                    val = self.call_value(self.ev(d, env), [val], d)
+            env[st.name] = val
         else:
             raise self.unsupported("statement %s" % type(st).__name__, st)
+
+    def exec_with(self, st, i, env):
+        """`with` items i.. of statement st, then its body: the context-manager protocol (class based or @contextmanager)."""
+        if i == len(st.items):
+            self.block(st.body, env)
+            return
+        item = st.items[i]
+        v = self.ev(item.context_expr, env)
+
+        def bind(val):
+            if item.optional_vars is not None:
+                self.assign(item.optional_vars, val, env)
+        if isinstance(v, CtxGen):
+            self.run_ctxgen(v, bind, lambda: self.exec_with(st, i + 1, env), st)
+            return
+        if isinstance(v, (Obj, Pose)) and v.cls in self.pkg.classes and self.pkg.lookup(v.cls, "__enter__") is not None:
+            bind(self.call_method(v, "__enter__", []))
+            try:
+                self.exec_with(st, i + 1, env)
+            except PathRaise as e:
+                swallow = self.call_method(v, "__exit__", [Opaque("exc-type", e.exc), Opaque("exc", e.exc), None])
+                if swallow is not None and not isinstance(swallow, (bool, type(None))):
+                    swallow = self.truth(swallow, st)
+                if swallow:
+                    return
+                raise
+            except (_Return, _Break, _Continue):
+                self.call_method(v, "__exit__", [None, None, None])
+                raise
+            self.call_method(v, "__exit__", [None, None, None])
+            return
+        bind(v)       # files (virtual), closing(x), np.errstate(...): the object itself
+        self.exec_with(st, i + 1, env)
+
+    def run_ctxgen(self, g, bind, body, node):
+        """@contextmanager generator: statements before its single `yield`, the with-body, the statements after it.
+        Supported shapes:   pre...; yield [v]; post...      and      pre...; try: pre2...; yield [v]; post2...  finally: fin...; post..."""
+        fn = g.fn
+        from .model import strip_docstring
+        stmts = strip_docstring(fn.body)
+
+        def is_yield(x):
+            return (isinstance(x, ast.Expr) and isinstance(x.value, ast.Yield)) or \
+                   (isinstance(x, (ast.Assign, ast.AnnAssign)) and isinstance(x.value, ast.Yield))
+
+        def count_yields(nodes):
+            return sum(1 for x in nodes for y in ast.walk(x) if isinstance(y, (ast.Yield, ast.YieldFrom)))
+        top = [k for k, x in enumerate(stmts) if is_yield(x)]
+        tries = [k for k, x in enumerate(stmts) if isinstance(x, ast.Try) and any(is_yield(y) for y in x.body)]
+        if count_yields(stmts) != 1 or len(top) + len(tries) != 1:
+            raise self.unsupported("@contextmanager function %s is not of the form pre; [try:] yield; [finally:] post" % fn_label(fn), node)
+        # bind the arguments exactly like a call would
+        holder = {}
+        import copy as _copy
+        shell = _copy.copy(fn)
+        shell.decorator_list, shell.body, shell._gs_raw = [], [ast.Pass()], True
+        shell._gs_module, shell._gs_class = getattr(fn, "_gs_module", None), getattr(fn, "_gs_class", None)
+
+        saved_run = self.run
+
+        def grab(f_, env_):
+            holder["env"] = env_
+            return None
+        self.run = grab
+        try:
+            self.call_function(shell, g.args, g.kw)
+        finally:
+            self.run = saved_run
+        genv = holder["env"]
+        self.fn_stack.append(fn)
+        try:
+            if top:
+                k = top[0]
+                pre, ystmt, post, tr = stmts[:k], stmts[k], stmts[k + 1:], None
+            else:
+                tr = stmts[tries[0]]
+                if tr.handlers or tr.orelse:
+                    raise self.unsupported("@contextmanager with except/else around the yield", node)
+                j = [q for q, y in enumerate(tr.body) if is_yield(y)][0]
+                pre, ystmt, post = stmts[:tries[0]] + tr.body[:j], tr.body[j], tr.body[j + 1:]
+            self.block(pre, genv)
+            yv = ystmt.value.value
+            bind(self.ev(yv, genv) if yv is not None else None)
+            self.fn_stack.pop()
+            try:
+                try:
+                    body()
+                finally:
+                    self.fn_stack.append(fn)
+            except (PathRaise, _Return, _Break, _Continue):
+                if tr is not None:
+                    self.block(tr.finalbody, genv)
+                raise
+            if isinstance(ystmt, (ast.Assign, ast.AnnAssign)):
+                for t_ in (ystmt.targets if isinstance(ystmt, ast.Assign) else [ystmt.target]):
+                    self.assign(t_, None, genv)
+            try:
+                self.block(post, genv)
+                if tr is not None:
+                    self.block(tr.finalbody, genv)
+                    self.block(stmts[tries[0] + 1:], genv)
+            except _Return:
+                pass
+        finally:
+            self.fn_stack.pop()
 
     def iterate(self, v, node):
         if isinstance(v, (list, tuple)):
             return list(v)
+        if isinstance(v, Obj) and self.dunder(v, "__iter__") is not None:
+            return self.iterate(self.call_function(self.dunder(v, "__iter__"), [v]), node)
         if isinstance(v, Obj) and getattr(v, "tuple_fields", None):
             return [v.fields[k] for k in v.tuple_fields]
         if isinstance(v, BytesVal):
@@ -715,6 +904,16 @@ class Interp:
                 self.assign(tt, vv, env)
         elif isinstance(t, ast.Attribute):
             base = self.ev(t.value, env)
+            if isinstance(base, (Obj, Pose)) and base.cls in self.pkg.classes:
+                sfn = self.pkg.setter(base.cls, t.attr)
+                if sfn is not None:
+                    self.call_function(sfn, [base, v])
+                    return
+                k_ = self.pkg.lookup(base.cls, t.attr)
+                if k_ is not None and k_[0] == "prop":
+                    raise PathRaise("AttributeError(property %s has no setter)" % t.attr, self.where(t))
+            if isinstance(base, Opaque) and base.kind in ("closure", "callable", "pkgfunc", "bound", "clsmeth"):
+                return      # function attributes (__name__, __doc__, markers) carry no behaviour
             if isinstance(base, Obj):
                 base.fields[t.attr] = v
             elif isinstance(base, ClassRef):
@@ -758,6 +957,8 @@ class Interp:
             return
         if not isinstance(base, Arr):
             raise self.unsupported("subscript store on %r" % (base,), node)
+        if isinstance(v, Obj) and getattr(v, "tuple_fields", None):
+            v = [v.fields[k] for k in v.tuple_fields]
         if isinstance(v, (list, tuple)) and v and all(isinstance(r, (list, tuple, Arr)) for r in v):
             v = self.to_arr(v, node)      # nested list literal assigned to a block
         if isinstance(sl, ast.Constant) and sl.value is Ellipsis:
@@ -835,6 +1036,10 @@ class Interp:
             return v
         if isinstance(v, BytesVal):
             return v.key()
+        if isinstance(v, Obj) and getattr(v, "tuple_fields", None):
+            return tuple(self.hashable(v.fields[k], node) for k in v.tuple_fields)
+        if isinstance(v, slice):
+            return ("slice", v.start, v.stop, v.step)
         raise self.unsupported("unhashable key %r" % (v,), node)
 
     # ------------------------------------------------------------------------------------ truth
@@ -938,6 +1143,25 @@ class Interp:
             return FLOAT
         raise self.unsupported("unknown name %s" % nm, n)
 
+    CLASS_DECORATORS_TRANSPARENT = {"dataclass", "total_ordering", "final", "runtime_checkable"}
+
+    def ensure_class(self, name):
+        """Apply the class decorators of `name` (and of its bases) once, as the class statement would."""
+        for c in reversed(self.pkg.mro(name)):
+            if c in self.class_inited:
+                continue
+            self.class_inited.add(c)
+            ci = self.pkg.classes[c]
+            for d in reversed(ci.decorators):
+                if _deco_leaf(d) in self.CLASS_DECORATORS_TRANSPARENT:
+                    if _deco_leaf(d) == "total_ordering":
+                        raise self.unsupported("functools.total_ordering on %s" % c, d)
+                    continue
+                dv = self.ev_in_module(d, ci.module)
+                r = self.call_value(dv, [ClassRef(c)], d)
+                if not (isinstance(r, ClassRef) and r.name == c):
+                    raise self.unsupported("class decorator of %s does not return the class" % c, d)
+
     def module_global(self, rel, nm, expr):
         """A module-level binding is evaluated once per program run: mutable values (arrays, dicts used as memo tables, ...)
         are shared by every reference, exactly as in Python."""
@@ -1001,7 +1225,18 @@ class Interp:
             return v
         raise self.unsupported("unary operator", n)
 
+    def dunder(self, v, name):
+        """The method implementing operator `name` for an object of a package class, or None."""
+        if isinstance(v, Obj) and v.cls in self.pkg.classes:
+            k = self.pkg.lookup(v.cls, name)
+            if k is not None and k[0] == "method":
+                return k[1][0]
+        return None
+
     def neg(self, v, node):
+        f_ = self.dunder(v, "__neg__")
+        if f_ is not None:
+            return self.call_function(f_, [v])
         if isinstance(v, Pose):
             return Pose(v.cls, [self.neg(x, node) for x in v.data])
         if isinstance(v, Arr):
@@ -1202,7 +1437,22 @@ class Interp:
             return w.inner + w.offset + Poly.var("WRAP")
         return w.inner + w.offset
 
+    DUNDER_OF = {ast.Add: "add", ast.Sub: "sub", ast.Mult: "mul", ast.Div: "truediv", ast.MatMult: "matmul", ast.Pow: "pow", ast.Mod: "mod"}
+
     def arith(self, op, a, b, node):
+        if isinstance(a, Obj) or isinstance(b, Obj):
+            nm = self.DUNDER_OF.get(op)
+            if nm is not None:
+                f_ = self.dunder(a, "__%s__" % nm)
+                if f_ is not None:
+                    return self.call_function(f_, [a, b])
+                f_ = self.dunder(b, "__r%s__" % nm)
+                if f_ is not None:
+                    return self.call_function(f_, [b, a])
+            if isinstance(a, Obj) and getattr(a, "tuple_fields", None) and isinstance(b, Arr):
+                a = self.to_arr(a, node)
+            elif isinstance(b, Obj) and getattr(b, "tuple_fields", None) and isinstance(a, Arr):
+                b = self.to_arr(b, node)
         if isinstance(a, (list, tuple)) and isinstance(b, Arr):
             a = self.to_arr(a, node)
         if isinstance(b, (list, tuple)) and isinstance(a, Arr):
@@ -1350,6 +1600,12 @@ class Interp:
         return self.index(v, idx, n)
 
     def index(self, v, idx, node):
+        if isinstance(v, Obj):
+            f_ = self.dunder(v, "__getitem__")
+            if f_ is not None:
+                return self.call_function(f_, [v, idx if not isinstance(idx, int) else Poly.const(idx)])
+            if getattr(v, "tuple_fields", None):
+                return self.index(tuple(v.fields[k] for k in v.tuple_fields), idx, node)
         if isinstance(v, _regex.Match):
             try:
                 return v.group(idx if isinstance(idx, str) else self.intval(idx, node))
@@ -1436,6 +1692,31 @@ class Interp:
     def ev_Attribute(self, n, env):
         v = self.ev(n.value, env)
         a = n.attr
+        if isinstance(v, Opaque) and v.kind in ("closure", "pkgfunc", "clsmeth", "bound") and a in ("__name__", "__qualname__", "__doc__", "__code__", "__wrapped__", "__module__"):
+            fdef = None
+            if v.kind == "closure":
+                fdef = v.payload[0]
+            elif v.kind == "pkgfunc":
+                fdef = self.pkg.funcs[v.payload[0]]
+            else:
+                owner_ = v.payload[0].name if isinstance(v.payload[0], ClassRef) else v.payload[0].cls
+                kk = self.pkg.lookup(owner_, v.payload[1])
+                if kk is not None and kk[0] == "method":
+                    fdef = kk[1][0]
+            if fdef is None:
+                raise self.unsupported("attribute %s of %r" % (a, v), n)
+            if a in ("__name__", "__qualname__"):
+                return fdef.name
+            if a == "__doc__":
+                return ast.get_docstring(fdef) or None
+            if a == "__module__":
+                return "graphslam"
+            if a == "__code__":
+                co = Obj("<code>")
+                co.fields["co_argcount"] = Poly.const(len(fdef.args.posonlyargs) + len(fdef.args.args))
+                co.fields["co_varnames"] = tuple(x.arg for x in fdef.args.args)
+                return co
+            raise self.unsupported("attribute %s of a function" % a, n)
         if isinstance(v, Opaque):
             if v.kind == "npfunc" and v.payload[0] in ("add", "subtract") and a == "at":
                 return Opaque("ufunc_at", v.payload[0])
@@ -1450,11 +1731,27 @@ class Interp:
             if v.kind == "logger":
                 return Opaque("logmeth", a)
             raise self.unsupported("attribute %s of %r" % (a, v), n)
+        if isinstance(v, (Pose, Obj)) and v.cls in self.pkg.classes:
+            self.ensure_class(v.cls)
+        if isinstance(v, ClassRef) and v.name in self.pkg.classes:
+            self.ensure_class(v.name)
         if isinstance(v, (Pose, Obj)) and not (isinstance(v, Obj) and (a in v.fields or a in v.stubs)) and \
                 not (isinstance(v, Arr) and a in v.__dict__.get("attrs", {})):
             for c_ in (self.pkg.mro(v.cls) if v.cls in self.pkg.classes else []):
                 if (c_, a) in self.class_attrs:
-                    return self.class_attrs[(c_, a)]
+                    cv = self.class_attrs[(c_, a)]
+                    if isinstance(cv, Opaque) and cv.kind in ("closure", "clsmeth"):
+                        # a function stored on the class is a method of its instances
+                        if cv.kind == "clsmeth":
+                            kk = self.pkg.lookup(cv.payload[0].name, cv.payload[1])
+                            if kk is not None and kk[0] == "method" and not kk[1][1] and not kk[1][2]:
+                                return Opaque("callable", (lambda *args, v=v, f_=kk[1][0], **kw: self.call_function(f_, [v] + list(args), kw)))
+                            return cv
+                        return Opaque("callable", (lambda *args, v=v, cv=cv, n=n, **kw: self.call_value(cv, [v] + list(args), n, kw)))
+                    return cv
+                ci_ = self.pkg.classes[c_]
+                if a in ci_.methods or a in ci_.props or a in ci_.consts:
+                    break
         if isinstance(v, Pose):
             k = self.pkg.lookup(v.cls, a)
             if k is not None:
@@ -1502,11 +1799,30 @@ class Interp:
                     return v.name
             raise self.unsupported("class attribute %s.%s" % (v.name, a), n)
         if isinstance(v, Obj):
+            k = self.pkg.lookup(v.cls, a) if v.cls in self.pkg.classes else None
+            if k is not None and k[0] == "prop" and a not in v.stubs:
+                return self.call_function(k[1], [v])      # a property is a data descriptor: it wins over the instance dict
             if a in v.fields:
                 return v.fields[a]
             if a in v.stubs:
                 return Opaque("bound", v, a)
-            k = self.pkg.lookup(v.cls, a) if v.cls in self.pkg.classes else None
+            if getattr(v, "tuple_fields", None):
+                if a == "_fields":
+                    return tuple(v.tuple_fields)
+                if a == "_asdict":
+                    return Opaque("callable", (lambda v=v: {k_: v.fields[k_] for k_ in v.tuple_fields}))
+                if a == "_replace":
+                    def repl(v=v, **kw_):
+                        o = Obj(v.cls, **dict(v.fields))
+                        o.tuple_fields = v.tuple_fields
+                        for k_, x_ in kw_.items():
+                            if k_ not in v.tuple_fields:
+                                raise PathRaise("ValueError(unexpected field %s)" % k_, self.where(n))
+                            o.fields[k_] = x_
+                        return o
+                    return Opaque("callable", repl)
+                if a in ("index", "count"):
+                    return Opaque("pymeth", tuple(v.fields[k_] for k_ in v.tuple_fields), a)
             if k is not None:
                 if k[0] == "prop":
                     return self.call_function(k[1], [v])
@@ -1599,22 +1915,12 @@ class Interp:
         if k == "npfunc":
             return self.npfunc(f.payload[0], args, kw, n)
         if k == "closure":
-            fn, cenv = f.payload
-            a = fn.args
-            params = [p.arg for p in a.args]
-            call_env = dict(cenv)
-            for p_, v_ in zip(params, args):
-                call_env[p_] = v_
-            for p_, v_ in kw.items():
-                call_env[p_] = v_
-            ndef = len(a.defaults)
-            for i_, p_ in enumerate(params):
-                if i_ >= len(args) and p_ not in kw:
-                    j_ = i_ - (len(params) - ndef)
-                    if j_ < 0:
-                        raise self.unsupported("missing argument %s" % p_, n)
-                    call_env[p_] = self.ev(a.defaults[j_], cenv)
-            return self.run(fn, call_env)
+            fn, cenv = f.payload[0], f.payload[1]
+            dvals = f.payload[2] if len(f.payload) > 2 else None
+            kdvals = f.payload[3] if len(f.payload) > 3 else None
+            if dvals is None:
+                dvals = [self.ev(d, cenv) for d in fn.args.defaults]
+            return self.call_function(fn, args, kw, base_env=cenv, defaults=dvals, kw_defaults=kdvals)
         if k == "ufunc_at":
             # np.add.at(a, idx, b): unbuffered in-place a[idx] += b
             target, idx_v, val = args
@@ -1696,6 +2002,14 @@ class Interp:
                     obj = self.ev_Attribute(ast.Attribute(value=_Lit(obj), attr=part, ctx=ast.Load(), lineno=getattr(n, "lineno", 0)), {})
                 return obj
             return Opaque("callable", (lambda obj, names=names: get1(obj, names[0]) if len(names) == 1 else tuple(get1(obj, x) for x in names)))
+        if origin.startswith("functools") and leaf == "wraps":
+            return Opaque("callable", (lambda f_: f_))
+        if origin.startswith("functools") and leaf in ("lru_cache", "cache"):
+            if len(args) == 1 and isinstance(args[0], Opaque) and not kw:
+                return args[0]
+            return Opaque("callable", (lambda f_: f_))
+        if origin.startswith("contextlib") and leaf == "closing":
+            return args[0]
         if origin.startswith("functools") and leaf == "partial":
             f0, a0, k0 = args[0], list(args[1:]), dict(kw)
             return Opaque("callable", (lambda *a, f0=f0, a0=a0, k0=k0, **k: self.ev_Call(
@@ -1752,7 +2066,11 @@ class Interp:
                 return v.copy()
         raise self.unsupported("call of imported %s" % origin, n)
 
-    def call_value(self, f, args, n):
+    def call_value(self, f, args, n, kw=None):
+        if kw:
+            return self.ev_Call(ast.Call(func=_Lit(f), args=[_Lit(a) for a in args],
+                                         keywords=[ast.keyword(arg=k_, value=_Lit(v_)) for k_, v_ in kw.items()],
+                                         lineno=getattr(n, "lineno", 0)), {})
         if isinstance(f, ClassRef) and f.name in ("float", "int", "str"):
             return self.builtin(f.name, list(args), {}, n, {})
         if isinstance(f, ClassRef):
@@ -2006,13 +2324,15 @@ class Interp:
                 return rx
         is_int = lambda tok: tok in self.ph_val and self.ph_val[tok].key() in self.int_tokens
         try:
+            pos_ = kw.get("pos", args[1] if (len(args) > 1 and name in ("match", "fullmatch", "search", "findall", "finditer")) else None)
+            pos_ = self.intval(pos_, n) if pos_ is not None else 0
             if name in ("match", "fullmatch", "search"):
                 s_ = args[0]
                 if not isinstance(s_, str):
                     raise PathRaise("TypeError(expected string)", self.where(n))
-                return _regex.match(rx, s_, is_int, name)
+                return _regex.match(rx, s_, is_int, name, pos_)
             if name in ("findall", "finditer"):
-                ms = _regex.finditer(rx, args[0], is_int)
+                ms = _regex.finditer(rx, args[0], is_int, pos_)
                 if name == "finditer":
                     return ms
                 if rx.rx.groups == 0:
@@ -2039,6 +2359,10 @@ class Interp:
                 return tuple(g if g is not None else d for g in m.groups_)
             if name == "group":
                 return m.group(*[a if isinstance(a, str) else self.intval(a, n) for a in args])
+            if name in ("start", "end", "span"):
+                i = (args[0] if isinstance(args[0], str) else self.intval(args[0], n)) if args else 0
+                a_, b_ = m.span(i)
+                return Poly.const(a_) if name == "start" else (Poly.const(b_) if name == "end" else (Poly.const(a_), Poly.const(b_)))
             if name == "groupdict":
                 d = args[0] if args else kw.get("default")
                 return {k: (m.groups_[i - 1] if m.groups_[i - 1] is not None else d) for k, i in m.names.items()}
@@ -2172,6 +2496,12 @@ class Interp:
                 return Poly.const(len(v))
             if v is None:
                 raise PathRaise("TypeError(len(None))", self.where(n))
+            if isinstance(v, Obj):
+                f_ = self.dunder(v, "__len__")
+                if f_ is not None:
+                    return self.call_function(f_, [v])
+                if getattr(v, "tuple_fields", None):
+                    return Poly.const(len(v.tuple_fields))
             if isinstance(v, (set, frozenset)):
                 # structurally different symbolic numbers may still be equal: every pair is a decision
                 reps, other = [], 0
@@ -2243,6 +2573,12 @@ class Interp:
             raise PathRaise("AttributeError(%s)" % attr, self.where(n))
         if name == "setattr":
             obj, attr, val = args
+            if isinstance(obj, ClassRef) and obj.name in self.pkg.classes and isinstance(attr, str):
+                self.class_attrs[(obj.name, attr)] = val
+                return None
+            if isinstance(obj, (Obj, Pose)) and isinstance(attr, str):
+                self.assign(ast.Attribute(value=_Lit(obj), attr=attr, ctx=ast.Store(), lineno=getattr(n, "lineno", 0)), val, {})
+                return None
             if isinstance(obj, Obj):
                 obj.fields[attr] = val
             elif isinstance(obj, Arr):
@@ -2414,7 +2750,7 @@ class Interp:
         fn = ast.FunctionDef(name="<lambda>", args=n.args, body=[ast.Return(value=n.body, lineno=n.lineno)], decorator_list=[], lineno=n.lineno)
         fn._gs_module = self.module_of_current()
         fn._gs_class = None
-        return Opaque("closure", fn, env)
+        return self.make_closure(fn, env)
 
     def ev_NamedExpr(self, n, env):
         v = self.ev(n.value, env)
@@ -2445,6 +2781,10 @@ class Interp:
         raise LossyOperation("array constructed with a non-float64 dtype", self.where(n))
 
     def to_arr(self, v, node):
+        if isinstance(v, Obj) and getattr(v, "tuple_fields", None):
+            v = [v.fields[k] for k in v.tuple_fields]
+        if isinstance(v, (list, tuple)) and any(isinstance(x, Obj) and getattr(x, "tuple_fields", None) for x in v):
+            v = [([x.fields[k] for k in x.tuple_fields] if isinstance(x, Obj) and getattr(x, "tuple_fields", None) else x) for x in v]
         if isinstance(v, (list, tuple)) and v and all(isinstance(x, str) for x in v):
             return Arr([self.parse_number(x, node, integer=False) for x in v], 1)
         if isinstance(v, Arr):
